@@ -63,7 +63,7 @@ End D.
 
 Lemma fph_decode_sp v : 0 <= v < 2 ^ 32 ->
   let x := FPH_from_ieee754 fph_sp v in xeq (pf_value x) (ieee_value 8 23 v) /\ (x = PNaN \/ pf_neg x = ieee_neg 8 23 v).
-Proof. intros Hv. cbv zeta. unfold fph_sp. rewrite (proj1 fphs_std false). apply fph_decode_exact; lia. Qed.
+Proof. intros Hv. cbv zeta. unfold fph_sp. rewrite (proj1 fphs_std true). apply fph_decode_exact; lia. Qed.
 
 Lemma fph_decode_dp v : 0 <= v < 2 ^ 64 ->
   let x := FPH_from_ieee754 fph_dp v in xeq (pf_value x) (ieee_value 11 52 v) /\ (x = PNaN \/ pf_neg x = ieee_neg 11 52 v).
